@@ -278,6 +278,24 @@ func ruleAbsClampAdapters(c *Ctx, r *R) {
 				v = u.X
 			}
 			call, ok := v.(*ssa.Call)
+			if ok && len(call.Call.Args) == 3 {
+				// Reverse as Greater(less, a, b): a sibling adapter (whose own direction is its own obligation) applied to the
+				// same two operands - the sibling's order, exchanged once more if the operands are
+				if cal := staticCallee(&call.Call); cal != nil {
+					for _, sib := range []ad{{"xsort.Greater", []bool{true}, false}, {"xsort.LessOrEqual", []bool{true}, true}, {"xsort.GreaterOrEqual", []bool{false}, true}} {
+						if sf := c.fn(sib.name); sf == nil || origin(sf) != origin(cal) || sib.name == a.name {
+							continue
+						}
+						x, y := call.Call.Args[1], call.Call.Args[2]
+						sw2 := x == pb && y == pa
+						st2 := x == pa && y == pb
+						if (sw2 || st2) && (sib.swapped[0] != sw2) == a.swapped[0] && (sib.negated != neg) == a.negated {
+							good = true
+						}
+					}
+				}
+				return
+			}
 			if !ok || len(call.Call.Args) != 2 {
 				return
 			}
